@@ -261,6 +261,12 @@ pub fn generate(prop: NetProp, seed: u64, tier: Tier) -> Case<NetCfg, NetOp> {
     if g.s.chance(1, 10) {
         g.ops.push(NetOp::Tick { ep: g.s.below(2) as u8 });
     }
+    if g.sendfail > 0 && g.s.chance(1, 6) {
+        // the very first datagram(s) of the session fail in the send callback
+        let ep = g.s.below(2) as u8;
+        let n = 1 + g.s.below(3) as u8;
+        g.ops.push(NetOp::SendErr { ep, n });
+    }
     g.ops.push(NetOp::Connect);
     g.faults_after_traffic();
     let inject = |g: &mut Gen, n: u64| {
